@@ -34,6 +34,19 @@ theorem absS_setAt (s : Store M) (i : Nat) (v : Option (Nat × M)) :
   simp only [absS, setAt]
   split <;> rfl
 
+def opId : Op M → Nat
+  | .upd u => u.id
+  | .del d => d.id
+
+/-- `ks` are `n` distinct positions of the commit log inside `[a, b)`, each holding a commit on id `i`. -/
+def RivalCommits (log : List (Entry M)) (i a b n : Nat) (ks : List Nat) : Prop :=
+  ks.length = n ∧ ks.Pairwise (· < ·) ∧
+  ∀ k, k ∈ ks → a ≤ k ∧ k < b ∧ ∃ e, log[k]? = some e ∧ opId e.op = i
+
+/-- no commit on id `i` at or after position `a` -/
+def Quiet (log : List (Entry M)) (i a : Nat) : Prop :=
+  ∀ k e, a ≤ k → log[k]? = some e → opId e.op ≠ i
+
 def opGen : Op M → Bool
   | .upd u => u.genId
   | .del _ => false
@@ -49,10 +62,10 @@ def RecOK (s₀ : SStore M) (log : List (Entry M)) (t : Nat) (n : Nat) (r : Rec 
       specStep r.op (replay s₀ (log.take r.lin)) = (r.res, replay s₀ (log.take r.lin)) ∧
       (r.res = .ok none ∨ ∃ e, r.res = .error e)
   | .raced =>
-      -- lost a race: some other call committed inside this call's interval (five for a Delete that gave up);
-      -- the only other source of Aborted is an id generator that ran out of attempts
-      (r.res = .error .aborted ∧ (opGen r.op = true ∨ r.inv < r.resp)) ∨
-      (r.res = .error .unavailable ∧ r.inv + 5 ≤ r.resp)
+      -- lost a race: a commit on the same id landed inside this call's interval (five distinct ones for a Delete
+      -- that gave up); the only other source of Aborted is an id generator that ran out of attempts
+      (r.res = .error .aborted ∧ (opGen r.op = true ∨ ∃ ks, RivalCommits log (opId r.op) r.inv r.resp 1 ks)) ∨
+      (r.res = .error .unavailable ∧ ∃ ks, RivalCommits log (opId r.op) r.inv r.resp 5 ks)
 
 /-- What the read of an in-flight update established (at log length `k`). -/
 def ReadView (s₀ : SStore M) (log : List (Entry M)) (k : Nat) (u : UpdOp M) (rd : Option M) (created : Bool) :
@@ -66,16 +79,17 @@ def PcOK (s₀ : SStore M) (log : List (Entry M)) (store : Store M) (nextRef : N
   | .idle => True
   | .uChange u rd created =>
       th.invAt ≤ th.readAt ∧ th.readAt ≤ log.length ∧ ReadView s₀ log th.readAt u rd created ∧
-      (th.readAt = log.length → secondGet true u created (store u.id) = rd)
+      (Quiet log u.id th.readAt → secondGet true u created (store u.id) = rd)
   | .uCommit u rd created new =>
       th.invAt ≤ th.readAt ∧ th.readAt ≤ log.length ∧ ReadView s₀ log th.readAt u rd created ∧
       u.change rd = .ok new ∧
-      (th.readAt = log.length → secondGet true u created (store u.id) = rd)
+      (Quiet log u.id th.readAt → secondGet true u created (store u.id) = rd)
   | .dTry d seen attempt =>
       th.invAt ≤ th.readAt ∧ th.readAt ≤ log.length ∧ attempt < 5 ∧
       (replay s₀ (log.take th.readAt)) d.id = seen.map (·.2) ∧
       (∀ r b, seen = some (r, b) → r < nextRef ∧ ∀ b', store d.id = some (r, b') → b' = b) ∧
-      (th.readAt = log.length → store d.id = seen) ∧ th.invAt + attempt ≤ th.readAt
+      (Quiet log d.id th.readAt → store d.id = seen) ∧
+      ∃ ks, RivalCommits log d.id th.invAt th.readAt attempt ks
 
 structure ThreadOK (s₀ : SStore M) (log : List (Entry M)) (store : Store M) (nextRef : Nat) (t : Nat)
     (th : Thread M) : Prop where
@@ -91,6 +105,54 @@ structure Inv (s₀ : SStore M) (c : Config M) : Prop where
 
 /-! ### Monotonicity: what other threads' commits preserve -/
 
+theorem RivalCommits.mono {log : List (Entry M)} {i a b n : Nat} {ks : List Nat}
+    (h : RivalCommits log i a b n ks) (hb : b ≤ log.length) (e : Entry M) :
+    RivalCommits (log ++ [e]) i a b n ks := by
+  obtain ⟨h1, h2, h3⟩ := h
+  refine ⟨h1, h2, ?_⟩
+  intro k hk
+  obtain ⟨ha, hb', e', he', hid⟩ := h3 k hk
+  exact ⟨ha, hb', e', by rw [getElem?_snoc_of_lt (by omega)]; exact he', hid⟩
+
+theorem Quiet.of_snoc {log : List (Entry M)} {i a : Nat} {e : Entry M} (h : Quiet (log ++ [e]) i a)
+    (ha : a ≤ log.length) : Quiet log i a ∧ opId e.op ≠ i := by
+  constructor
+  · intro k e' hk he'
+    have hlt : k < log.length := (List.getElem?_eq_some_iff.mp he').1
+    exact h k e' hk (by rw [getElem?_snoc_of_lt hlt]; exact he')
+  · exact h log.length e ha (by simp)
+
+/-- a position at or after `a` holding a commit on `i`, if the log is not quiet there -/
+theorem exists_of_not_quiet {log : List (Entry M)} {i a : Nat} (h : ¬ Quiet log i a) :
+    ∃ k e, a ≤ k ∧ k < log.length ∧ log[k]? = some e ∧ opId e.op = i := by
+  apply Classical.byContradiction
+  intro hno
+  apply h
+  intro k e hk he hid
+  exact hno ⟨k, e, hk, (List.getElem?_eq_some_iff.mp he).1, he, hid⟩
+
+/-- one more rival commit, later than all the ones counted so far -/
+theorem RivalCommits.snoc {log : List (Entry M)} {i a b n : Nat} {ks : List Nat}
+    (h : RivalCommits log i a b n ks) {k : Nat} {e : Entry M} (hbk : b ≤ k) (hk : k < log.length)
+    (he : log[k]? = some e) (hid : opId e.op = i) (hab : a ≤ b) :
+    RivalCommits log i a log.length (n + 1) (ks ++ [k]) := by
+  obtain ⟨h1, h2, h3⟩ := h
+  refine ⟨by simp [h1], ?_, ?_⟩
+  · rw [List.pairwise_append]
+    refine ⟨h2, List.pairwise_singleton _ _, ?_⟩
+    intro x hx y hy
+    simp only [List.mem_singleton] at hy
+    subst hy
+    have := (h3 x hx).2.1
+    omega
+  · intro x hx
+    rcases List.mem_append.mp hx with hx | hx
+    · obtain ⟨ha, hb', e', he', hid'⟩ := h3 x hx
+      exact ⟨ha, by omega, e', he', hid'⟩
+    · simp only [List.mem_singleton] at hx
+      subst hx
+      exact ⟨by omega, hk, e, he, hid⟩
+
 theorem RecOK.mono {s₀ : SStore M} {log : List (Entry M)} {t n} {r : Rec M} (h : RecOK s₀ log t n r)
     (e : Entry M) : RecOK s₀ (log ++ [e]) t n r := by
   obtain ⟨h1, h2, h3, h4⟩ := h
@@ -102,26 +164,34 @@ theorem RecOK.mono {s₀ : SStore M} {log : List (Entry M)} {t n} {r : Rec M} (h
     · rw [getElem?_snoc_of_lt (by omega)]; exact ha
     · rw [take_snoc_of_le hk]; exact hc
   · rw [take_snoc_of_le hk]; exact h4
-  · exact h4
+  · rcases h4 with ⟨hr, hg | ⟨ks, hks⟩⟩ | ⟨hr, ks, hks⟩
+    · exact Or.inl ⟨hr, Or.inl hg⟩
+    · exact Or.inl ⟨hr, Or.inr ⟨ks, hks.mono h3 e⟩⟩
+    · exact Or.inr ⟨hr, ks, hks.mono h3 e⟩
 
 theorem PcOK.mono {s₀ : SStore M} {log : List (Entry M)} {store store' : Store M} {nr nr' : Nat}
     {th : Thread M} (h : PcOK s₀ log store nr th) (e : Entry M) (hnr : nr ≤ nr')
-    (hst : ∀ j r b, store' j = some (r, b) → store j = some (r, b) ∨ nr ≤ r) :
+    (hst : ∀ j r b, store' j = some (r, b) → store j = some (r, b) ∨ nr ≤ r)
+    (hoth : ∀ j, j ≠ opId e.op → store' j = store j) :
     PcOK s₀ (log ++ [e]) store' nr' th := by
   unfold PcOK at h ⊢
   cases hpc : th.pc <;> simp only [hpc] at h ⊢
-  · obtain ⟨h1, h2, h3, _⟩ := h
+  · obtain ⟨h1, h2, h3, hq⟩ := h
     refine ⟨h1, by simp; omega, ?_, ?_⟩
     · unfold ReadView at h3 ⊢
       rw [take_snoc_of_le h2]; exact h3
-    · intro hlen; simp at hlen; omega
-  · obtain ⟨h1, h2, h3, h4, _⟩ := h
+    · intro hquiet
+      obtain ⟨hq', hne⟩ := hquiet.of_snoc h2
+      rw [hoth _ (Ne.symm hne)]; exact hq hq'
+  · obtain ⟨h1, h2, h3, h4, hq⟩ := h
     refine ⟨h1, by simp; omega, ?_, h4, ?_⟩
     · unfold ReadView at h3 ⊢
       rw [take_snoc_of_le h2]; exact h3
-    · intro hlen; simp at hlen; omega
-  · obtain ⟨h1, h2, h3, h4, h5, _, h7'⟩ := h
-    refine ⟨h1, by simp; omega, h3, ?_, ?_, ?_, h7'⟩
+    · intro hquiet
+      obtain ⟨hq', hne⟩ := hquiet.of_snoc h2
+      rw [hoth _ (Ne.symm hne)]; exact hq hq'
+  · obtain ⟨h1, h2, h3, h4, h5, hq, ks, hks⟩ := h
+    refine ⟨h1, by simp; omega, h3, ?_, ?_, ?_, ks, hks.mono h2 e⟩
     · rw [take_snoc_of_le h2]; exact h4
     · intro r b hs
       obtain ⟨h6, h7⟩ := h5 r b hs
@@ -130,13 +200,16 @@ theorem PcOK.mono {s₀ : SStore M} {log : List (Entry M)} {store store' : Store
       rcases hst _ _ _ hb' with h8 | h8
       · exact h7 b' h8
       · omega
-    · intro hlen; simp at hlen; omega
+    · intro hquiet
+      obtain ⟨hq', hne⟩ := hquiet.of_snoc h2
+      rw [hoth _ (Ne.symm hne)]; exact hq hq'
 
 theorem ThreadOK.mono {s₀ : SStore M} {log : List (Entry M)} {store store' : Store M} {nr nr' : Nat}
     {t : Nat} {th : Thread M} (h : ThreadOK s₀ log store nr t th) (e : Entry M) (hnr : nr ≤ nr')
-    (hst : ∀ j r b, store' j = some (r, b) → store j = some (r, b) ∨ nr ≤ r) :
+    (hst : ∀ j r b, store' j = some (r, b) → store j = some (r, b) ∨ nr ≤ r)
+    (hoth : ∀ j, j ≠ opId e.op → store' j = store j) :
     ThreadOK s₀ (log ++ [e]) store' nr' t th :=
-  ⟨fun n r hr => (h.recs n r hr).mono e, h.pc.mono e hnr hst⟩
+  ⟨fun n r hr => (h.recs n r hr).mono e, h.pc.mono e hnr hst hoth⟩
 
 /-! ### Frame lemma for steps that only touch the stepping thread -/
 
